@@ -23,7 +23,7 @@ RULE = ("Hypothesis draws an OPF problem: network recipe (1-3 voltage levels, <=
         "voltages, branch flows and slack powers. Non-trivial = converged and >=1 declared constraint is binding (voltage band, "
         "branch loading, p/q limit of a controllable element, dcline max_p); distinct by case hash.")
 ASSUMPTIONS = ["tolerance model: pips stops at feascond = max|g,h| / (1+max|x|) < 5e-6 p.u. -> T = 4 * 5e-6 * (1 + max|P,Q|/sn_mva [+ pwl cost "
-               "values]); voltages T_v = max(1e-5, 2T), powers max(1e-3 MW, 20 T sn_mva), current limits sqrt(Imax^2 + T) (squared p.u. "
+               "values]); voltages T_v = max(1e-5, 2T), reproduced voltages max(1e-5, 2T * sum of branch impedances in p.u. of sn_mva), powers max(1e-3 MW, 20 T sn_mva), current limits sqrt(Imax^2 + T) (squared p.u. "
                "constraint), DC flow limits T*sn_mva",
                "undeclared (NaN) limits are not checked; voltage limits are not checked in DC OPF (documented)",
                "xward, motors, asymmetric elements and ZIP loads are not generated (OPF documents no support for voltage dependent "
@@ -78,7 +78,22 @@ def tolerances(net, sn, costs_scale=0.0):
                     big = max(big, float(v.max()))
     xnorm = max(1.0, big / sn, costs_scale)
     T = 4 * FEASTOL * (1 + xnorm)            # p.u.
-    return {"T": T, "v": max(1e-5, 2 * T), "p": max(1e-3, 20 * T * sn), "plim": max(1e-6, 2 * T * sn)}
+    # a power mismatch of T p.u. moves voltages by up to (impedance in p.u. of the system base) * T: weak low-voltage
+    # branches on a large sn_mva have hundreds of p.u.
+    z = 0.0
+    for i in net.line.index[net.line.in_service]:
+        r = net.line.loc[i]
+        z += math.hypot(r.r_ohm_per_km, r.x_ohm_per_km) * r.length_km / r.parallel / (net.bus.at[r.from_bus, "vn_kv"] ** 2 / sn)
+    for i in net.trafo.index[net.trafo.in_service]:
+        z += net.trafo.at[i, "vk_percent"] / 100.0 * sn / net.trafo.at[i, "sn_mva"] / net.trafo.at[i, "parallel"]
+    for i in net.trafo3w.index[net.trafo3w.in_service]:
+        r = net.trafo3w.loc[i]
+        z += (r.vk_hv_percent + r.vk_mv_percent + r.vk_lv_percent) / 100.0 * sn / min(r.sn_hv_mva, r.sn_mv_mva, r.sn_lv_mva)
+    for i in net.impedance.index[net.impedance.in_service]:
+        r = net.impedance.loc[i]
+        z += max(math.hypot(r.rft_pu, r.xft_pu), math.hypot(r.rtf_pu, r.xtf_pu)) * sn / r.sn_mva
+    vrep = max(1e-5, 2 * T * max(1.0, z))
+    return {"T": T, "v": max(1e-5, 2 * T), "vrep": vrep, "p": max(1e-3, 20 * T * sn), "plim": max(1e-6, 2 * T * sn)}
 
 
 def alive_fn(net, ac):
@@ -218,10 +233,10 @@ def check_limits(net, res, opt, sn, tol, costs):
         if abs(pt - exp_to) > tol["plim"] + 1e-9 * abs(pf):
             cls = []
             if d.loss_percent != 0:
-                cls.append("loss_percent")
-            if d.loss_mw != 0:
-                cls.append("loss_mw" + ("-sn" if sn != 1.0 else ""))
-            res.fail("dcline/loss-relation/" + ("+".join(cls) or "lossless"), element=int(idx), p_from_mw=pf, p_to_mw=pt,
+                cls.append("percent")           # OPF: p_to*(1+l) = p_from ; documented / power flow: p_to = p_from*(1-l)
+            if d.loss_mw != 0 and sn != 1.0:
+                cls.append("mw-base")           # OPF: loss_mw taken as p.u. of sn_mva
+            res.fail("dcline/loss-relation/" + ("+".join(cls) or "other"), element=int(idx), p_from_mw=pf, p_to_mw=pt,
                      documented_p_to=exp_to, loss_percent=float(d.loss_percent), loss_mw=float(d.loss_mw), sn_mva=sn)
         if ac:
             for side in ("from", "to"):
@@ -337,11 +352,14 @@ def check_reproduction(net, res, opt, sn, tol):
 
     for b in net.bus.index:
         if ac:
-            cmp("vm", "bus %s" % b, float(net.res_bus.at[b, "vm_pu"]), float(n2.res_bus.at[b, "vm_pu"]), tol["v"])
+            cmp("vm", "bus %s" % b, float(net.res_bus.at[b, "vm_pu"]), float(n2.res_bus.at[b, "vm_pu"]), tol["vrep"])
         a1, a2 = float(net.res_bus.at[b, "va_degree"]), float(n2.res_bus.at[b, "va_degree"])
         if not (math.isnan(a1) or math.isnan(a2)):
             a2 = a1 + ((a2 - a1 + 180.0) % 360.0 - 180.0)
-        cmp("va", "bus %s" % b, a1, a2, math.degrees(tol["v"]) * 5)
+        # an angle error corresponds to a voltage error of vm * d(angle): without declared voltage bands the OPF may return a
+        # low-voltage solution (seen: vm = 2.5e-7 p.u. at a bus whose angle had wound up to 8004 degrees)
+        vmb = float(net.res_bus.at[b, "vm_pu"]) if ac else 1.0
+        cmp("va", "bus %s" % b, a1, a2, math.degrees(tol["vrep"]) * 5 / max(min(vmb, 1.0), 1e-12))
     for tab, cols in FLOW_COLS.items():
         for idx in net[tab].index:
             for c in cols:
@@ -378,6 +396,9 @@ def check(case):
     ac = opt["mode"] == "ac"
     res.label("mode:" + opt["mode"])
     net, maps = gen.build(case)
+    dead_dc = gen.dcline_dead_terminal(net)
+    if dead_dc:
+        res.label("dcline-dead-terminal")
     try:
         with silence():
             gen.run_opf(net, opt)
@@ -385,6 +406,8 @@ def check(case):
         kind, what = gen.opf_outcome(e)
         if kind == "skip":
             res.skipped = what
+        elif dead_dc:
+            res.fail("dcline-dead-terminal/crash", error=repr(e)[:300], where=what, opt=opt)
         else:
             res.fail(what, error=repr(e)[:300], opt=opt)
         return res
@@ -395,10 +418,20 @@ def check(case):
     binding = check_limits(net, res, opt, sn, tol, case["costs"])
     for b in sorted(binding):
         res.label("binding:" + b)
-    if not res.failures:
+    alive = alive_fn(net, ac)
+    n_eg = sum(1 for i in net.ext_grid.index if element_active(net, "ext_grid", i, alive))
+    if ac and not opt.get("calculate_voltage_angles", True) and n_eg > 1:
+        # the OPF leaves the angle at further ext_grids free; a power flow without voltage angles cannot take it as a setpoint
+        res.label("reproduction-not-representable")
+    elif not res.failures:
         check_reproduction(net, res, opt, sn, tol)
     else:
         res.label("reproduction-skipped-after-limit-failure")
+    if dead_dc and res.failures:
+        # one root cause (the auxiliary generator of the dead terminal is missing, its lookup entry is -1): one signature
+        detail = [[sg, d] for sg, d in res.failures][:4]
+        del res.failures[:]
+        res.fail("dcline-dead-terminal/wrong-result", failures=detail)
     res.nontrivial = bool(binding)
     # shape labels
     for t in ("dcline", "trafo", "trafo3w", "storage", "ward", "shunt"):
